@@ -1,7 +1,7 @@
 #!/bin/bash
 # usage: tools_mutant.sh <patch.diff> <check id...>   -- apply a patch to /repo, run quick checks, always revert.
 P="$1"; shift
-git -C /repo apply "$P" || { echo "patch does not apply"; exit 2; }
+git -C /repo apply "$(realpath "$P")" || { echo "patch does not apply"; exit 2; }
 trap 'git -C /repo checkout -- . ' EXIT
 for c in "$@"; do
   echo "== $c with $(basename $P)"
